@@ -247,3 +247,17 @@ pub fn advanced_pawn_position(rng: &mut Rng) -> Pos {
         }
     }
 }
+
+/// A middlegame position in which the side to move has exactly one legal move (found by
+/// seeded playouts; None if none turned up within the budget).
+pub fn single_reply_position(rng: &mut Rng) -> Option<Pos> {
+    for _ in 0..60 {
+        let plies = 40 + rng.usize_below(100);
+        let (_, ps) = playout(rng, &Pos::startpos(), plies, 1);
+        let cands: Vec<&Pos> = ps.iter().filter(|p| p.piece_count() >= 8 && p.legal_moves().len() == 1).collect();
+        if !cands.is_empty() {
+            return Some((*rng.pick(&cands)).clone());
+        }
+    }
+    None
+}
